@@ -163,3 +163,32 @@ impl GseDecapMemory for SimpleGseMemory {
         }
     }
 }
+
+#[cfg(dvb_gse_verif)]
+/// Verification hooks (only compiled with `--cfg dvb_gse_verif`): faithful snapshot / restore of the memory.
+/// `Clone` is not faithful because `provision_storage` tests the capacity of the free list.
+impl SimpleGseMemory {
+    pub fn verif_parts(&self) -> (&[Box<[u8]>], &[Option<MemoryContext>], usize, usize, usize) {
+        (
+            &self.storages,
+            &self.frags,
+            self.storages.capacity(),
+            self.max_frag_id,
+            self.max_pdu_size,
+        )
+    }
+
+    pub fn verif_from_parts(
+        max_frag_id: usize,
+        max_pdu_size: usize,
+        storages: Vec<Box<[u8]>>,
+        frags: Vec<Option<MemoryContext>>,
+    ) -> Self {
+        let mut memory = <Self as GseDecapMemory>::new(max_frag_id, max_pdu_size, 0, 0);
+        for storage in storages {
+            memory.storages.push(storage);
+        }
+        memory.frags = frags.into_boxed_slice();
+        memory
+    }
+}
